@@ -767,8 +767,11 @@ func (rc *RegClient) imageCopyOpt(ctx context.Context, refSrc ref.Ref, refTgt re
 			}
 		} else {
 			if errors.Is(err, context.Canceled) {
-				// try to find a better error message than context canceled
-				err = <-waitCh
+				// try to find a better error message than context canceled,
+				// a child that finished without error must not clear the failure
+				if errNext := <-waitCh; errNext != nil {
+					err = errNext
+				}
 			} else {
 				<-waitCh
 			}
@@ -921,8 +924,11 @@ func (rc *RegClient) imageCopyOpt(ctx context.Context, refSrc ref.Ref, refTgt re
 			}
 		} else {
 			if errors.Is(err, context.Canceled) {
-				// try to find a better error message than context canceled
-				err = <-waitCh
+				// try to find a better error message than context canceled,
+				// a child that finished without error must not clear the failure
+				if errNext := <-waitCh; errNext != nil {
+					err = errNext
+				}
 			} else {
 				<-waitCh
 			}
